@@ -110,6 +110,7 @@ func checkC02(c *Ctx) {
 	ruleCharAdvance(c)
 	ruleSpanLen(c)
 	ruleResync(c)
+	ruleParaRestStart(c)
 }
 
 // ROOT-CUT: the Source of a root block ends exactly where the span of the block it carries ends.
